@@ -1060,7 +1060,8 @@ def observe_surrogate(disc, ref, v, Q, sizes, tag, has_jac, count, label, corr, 
                         if not L.within(asm, dref[rows], bound):
                             bad.append((f"surrogate-jacobian:{tag}", f"SurrogateDiscipline ({label}) .linearize is not the derivative of the predictions of its regression model at {q.tolist()}: {asm.tolist()} vs {dref[rows].tolist()}"))
                             return bad
-            if corr is not None and kq == 0:
+            if corr is not None and kq == 0 and (v.get("in") or v.get("out") or "retraining" in label):
+                # (the default discipline is covered by the `split` line of the model)
                 line = (
                     f"sur out={','.join(str(sizes[o]) for o in m_out)} in={','.join(str(sizes[i]) for i in m_in)} "
                     f"so={','.join(str(m_out.index(o)) for o in outs)} si={','.join(str(m_in.index(i)) for i in ins)} "
@@ -1812,6 +1813,14 @@ def _run_streams(ctx, res: Result, rng: common.Rng, corr: C.Corr, use_driver: bo
         res.notes.append("the generated kernel module does not build; driver-based correspondence skipped: " + build_err[-400:])
     audit_failed = ctx.audit is not None and not ctx.audit.ok
     suspects: set[str] = set()
+    timing: dict[str, float] = {}
+    res.extra["stage_wall_s"] = timing  # information only (the verdict never depends on it)
+    t_last = [time.time()]
+
+    def lap(name: str) -> None:
+        now = time.time()
+        timing[name] = round(timing.get(name, 0.0) + now - t_last[0], 1)
+        t_last[0] = now
 
     def on_mismatch(c: dict[str, Any], line: str, ans: str, why: str) -> bool:
         if c.get("stream") == "kernel":
@@ -1832,10 +1841,13 @@ def _run_streams(ctx, res: Result, rng: common.Rng, corr: C.Corr, use_driver: bo
             run_reg_cases(res, [entry["case"]], corr=corr if use_driver else None)
         elif entry.get("stream") == "transformer":
             run_tr_cases(res, [entry["case"]], corr=corr if use_driver else None)
+    lap("corpus")
     # ---- kernels
     if use_driver:
         run_kernel_stream(res, rng, corr, 40 if ctx.thorough else 6, suspects)
+        lap("kernels")
         corr.flush(res, on_mismatch)
+        lap("driver")
     n_reg = 6000 if ctx.thorough else 500
     n_tr = 5000 if ctx.thorough else 400
     # ---- every kernel and every algorithm at least once per run; more on suspects
@@ -1850,8 +1862,10 @@ def _run_streams(ctx, res: Result, rng: common.Rng, corr: C.Corr, use_driver: bo
     pool = get_pool(ctx.thorough)
     res.extra["workers"] = n_workers(ctx.thorough)
     run_reg_cases(res, must, corr=corr if use_driver else None, pool=pool)
+    lap("regressors")
     if use_driver:
         corr.flush(res, on_mismatch)
+        lap("driver")
     # a kernel formula that no longer matches the verified derivative / whose theorem no longer builds:
     # search for a concrete model whose Jacobian is wrong
     broken = set(suspects)
@@ -1869,17 +1883,25 @@ def _run_streams(ctx, res: Result, rng: common.Rng, corr: C.Corr, use_driver: bo
             res.count("deadline-reached:transformers")
             break
         run_tr_cases(res, tr_cases[k : k + 400], corr=corr if use_driver else None, pool=pool)
+        lap("transformers")
         if use_driver:
             corr.flush(res, on_mismatch)
+            lap("driver")
     # ---- regressors
     k = 0
-    batch = 25 * max(1, n_workers(ctx.thorough) // 2)
+    batch = 25 * max(1, n_workers(ctx.thorough))
     while k < n_reg and time.time() < ctx.deadline:
         m = min(batch, n_reg - k)
         run_reg_cases(res, [gen_reg_case(rng) for _ in range(m)], corr=corr if use_driver else None, pool=pool)
-        if use_driver:
-            corr.flush(res, on_mismatch)
+        lap("regressors")
         k += m
+        # (one start of the Lean driver costs seconds: the protocol lines of several batches go together)
+        if use_driver and (len(corr.items) >= 1500 or k >= n_reg or time.time() >= ctx.deadline):
+            corr.flush(res, on_mismatch)
+            lap("driver")
+    if use_driver:
+        corr.flush(res, on_mismatch)
+        lap("driver")
     if k < n_reg:
         res.count("deadline-reached:regressors")
     return res
